@@ -386,22 +386,17 @@ fn value_check_bytes(s: Sch, sd: &StructDefs, ed: &EnumDefs, ty: &TypeKind, b: &
     flag
 }
 
-/// All lengths 0..=N (N <= 12) of one symbolic buffer, unrolled by hand: the global unwind bound
-/// must stay small because it also bounds the recursion depth of the Value drop glue.
+/// One symbolic buffer, SYMBOLIC length 0..=N (the deserializer works on slices, nothing is
+/// allocated from the input length except the bytes/text payload copy).
 fn value_arbitrary_bytes<const N: usize>(s: Sch) -> u8 {
     let (sd, ed) = defs(s);
     let ty = field_ty(s);
     let b: [u8; N] = kani::any();
-    let mut seen = 0u8;
-    macro_rules! at {
-        ($($n:expr),*) => {
-            $( if $n <= N { seen |= value_check_bytes(s, &sd, &ed, &ty, &b[..$n]); } )*
-        };
-    }
-    at!(0, 1, 2, 3, 4, 5, 6, 7, 8, 9, 10, 11, 12);
-    assert!(N <= 12);
+    let n: usize = kani::any();
+    kani::assume(n <= N);
+    let flag = value_check_bytes(s, &sd, &ed, &ty, &b[..n]);
     core::mem::forget((ty, sd, ed));
-    seen
+    flag
 }
 
 #[kani::proof]
@@ -461,74 +456,64 @@ fn c26_value_roundtrip_str() {
 #[kani::unwind(3)]
 fn c26_value_bytes_int() {
     let seen = value_arbitrary_bytes::<12>(Sch::Int);
-    kani::cover!(seen & ACCEPTED != 0, "some input accepted");
-    kani::cover!(seen & UNEXPECTED_END != 0, "some input rejected: UnexpectedEnd");
-    kani::cover!(seen & BAD_INPUT != 0, "some input rejected: BadInput");
+    kani::cover!(seen == ACCEPTED, "some input accepted");
+    kani::cover!(seen == UNEXPECTED_END, "some input rejected: UnexpectedEnd");
+    kani::cover!(seen == BAD_INPUT, "some input rejected: BadInput");
 }
 
 #[kani::proof]
 #[kani::unwind(3)]
 fn c26_value_bytes_bool() {
     let seen = value_arbitrary_bytes::<2>(Sch::Bool);
-    kani::cover!(seen & ACCEPTED != 0, "some input accepted");
-    kani::cover!(seen & UNEXPECTED_END != 0, "some input rejected: UnexpectedEnd");
-    kani::cover!(seen & BAD_INPUT != 0, "some input rejected: BadInput");
+    kani::cover!(seen == ACCEPTED, "some input accepted");
+    kani::cover!(seen == UNEXPECTED_END, "some input rejected: UnexpectedEnd");
+    kani::cover!(seen == BAD_INPUT, "some input rejected: BadInput");
 }
 
 #[kani::proof]
 #[kani::unwind(3)]
 fn c26_value_bytes_enum() {
     let seen = value_arbitrary_bytes::<12>(Sch::Enum);
-    kani::cover!(seen & ACCEPTED != 0, "some input accepted");
-    kani::cover!(seen & UNEXPECTED_END != 0, "some input rejected: UnexpectedEnd");
-    kani::cover!(seen & BAD_INPUT != 0, "some input rejected: BadInput");
+    kani::cover!(seen == ACCEPTED, "some input accepted");
+    kani::cover!(seen == UNEXPECTED_END, "some input rejected: UnexpectedEnd");
+    kani::cover!(seen == BAD_INPUT, "some input rejected: BadInput");
 }
 
 #[kani::proof]
 #[kani::unwind(3)]
 fn c26_value_bytes_optint() {
     let seen = value_arbitrary_bytes::<12>(Sch::OptInt);
-    kani::cover!(seen & ACCEPTED != 0, "some input accepted");
-    kani::cover!(seen & UNEXPECTED_END != 0, "some input rejected: UnexpectedEnd");
-    kani::cover!(seen & BAD_INPUT != 0, "some input rejected: BadInput");
+    kani::cover!(seen == ACCEPTED, "some input accepted");
+    kani::cover!(seen == UNEXPECTED_END, "some input rejected: UnexpectedEnd");
+    kani::cover!(seen == BAD_INPUT, "some input rejected: BadInput");
 }
 
 #[kani::proof]
 #[kani::unwind(3)]
 fn c26_value_bytes_res() {
     let seen = value_arbitrary_bytes::<12>(Sch::Res);
-    kani::cover!(seen & ACCEPTED != 0, "some input accepted");
-    kani::cover!(seen & UNEXPECTED_END != 0, "some input rejected: UnexpectedEnd");
-    kani::cover!(seen & BAD_INPUT != 0, "some input rejected: BadInput");
+    kani::cover!(seen == ACCEPTED, "some input accepted");
+    kani::cover!(seen == UNEXPECTED_END, "some input rejected: UnexpectedEnd");
+    kani::cover!(seen == BAD_INPUT, "some input rejected: BadInput");
 }
 
 #[kani::proof]
 #[kani::unwind(3)]
 fn c26_value_bytes_nested() {
     let seen = value_arbitrary_bytes::<12>(Sch::Nested);
-    kani::cover!(seen & ACCEPTED != 0, "some input accepted");
-    kani::cover!(seen & UNEXPECTED_END != 0, "some input rejected: UnexpectedEnd");
-    kani::cover!(seen & BAD_INPUT != 0, "some input rejected: BadInput");
+    kani::cover!(seen == ACCEPTED, "some input accepted");
+    kani::cover!(seen == UNEXPECTED_END, "some input rejected: UnexpectedEnd");
+    kani::cover!(seen == BAD_INPUT, "some input rejected: BadInput");
 }
 
-/// id: 1 length byte + 32 payload bytes; lengths 0..=2 and 31..=35 (the interesting boundary).
+/// id: 1 length byte + 32 payload bytes; any input length 0..=35.
 #[kani::proof]
 #[kani::unwind(3)]
 fn c26_value_bytes_id() {
-    let (sd, ed) = defs(Sch::Id);
-    let ty = field_ty(Sch::Id);
-    let b: [u8; 35] = kani::any();
-    let mut seen = 0u8;
-    macro_rules! at {
-        ($($n:expr),*) => {
-            $( seen |= value_check_bytes(Sch::Id, &sd, &ed, &ty, &b[..$n]); )*
-        };
-    }
-    at!(0, 1, 2, 31, 32, 33, 34, 35);
-    kani::cover!(seen & ACCEPTED != 0, "some input accepted");
-    kani::cover!(seen & UNEXPECTED_END != 0, "some input rejected: UnexpectedEnd");
-    kani::cover!(seen & BAD_INPUT != 0, "some input rejected: BadInput");
-    core::mem::forget((ty, sd, ed));
+    let seen = value_arbitrary_bytes::<35>(Sch::Id);
+    kani::cover!(seen == ACCEPTED, "some input accepted");
+    kani::cover!(seen == UNEXPECTED_END, "some input rejected: UnexpectedEnd");
+    kani::cover!(seen == BAD_INPUT, "some input rejected: BadInput");
 }
 
 /// bytes / string: length prefix + payload of 0..=3 bytes.
@@ -536,17 +521,17 @@ fn c26_value_bytes_id() {
 #[kani::unwind(5)]
 fn c26_value_bytes_bytes() {
     let seen = value_arbitrary_bytes::<4>(Sch::Bytes);
-    kani::cover!(seen & ACCEPTED != 0, "some input accepted");
-    kani::cover!(seen & UNEXPECTED_END != 0, "some input rejected: UnexpectedEnd");
+    kani::cover!(seen == ACCEPTED, "some input accepted");
+    kani::cover!(seen == UNEXPECTED_END, "some input rejected: UnexpectedEnd");
 }
 
 #[kani::proof]
 #[kani::unwind(5)]
 fn c26_value_bytes_str() {
     let seen = value_arbitrary_bytes::<4>(Sch::Str);
-    kani::cover!(seen & ACCEPTED != 0, "some input accepted");
-    kani::cover!(seen & UNEXPECTED_END != 0, "some input rejected: UnexpectedEnd");
-    kani::cover!(seen & BAD_INPUT != 0, "some input rejected: BadInput");
+    kani::cover!(seen == ACCEPTED, "some input accepted");
+    kani::cover!(seen == UNEXPECTED_END, "some input rejected: UnexpectedEnd");
+    kani::cover!(seen == BAD_INPUT, "some input rejected: BadInput");
 }
 
 // ---------------------------------------------------------------------------------------------
@@ -616,26 +601,8 @@ fn c26_struct_roundtrip_two_fields() {
 
 #[kani::proof]
 #[kani::unwind(3)]
-fn c26_struct_roundtrip_bool() {
-    struct_roundtrip(Sch::Bool, 0);
-}
-
-#[kani::proof]
-#[kani::unwind(3)]
 fn c26_struct_roundtrip_optint() {
     struct_roundtrip(Sch::OptInt, 0);
-}
-
-#[kani::proof]
-#[kani::unwind(3)]
-fn c26_struct_roundtrip_res() {
-    struct_roundtrip(Sch::Res, 0);
-}
-
-#[kani::proof]
-#[kani::unwind(3)]
-fn c26_struct_roundtrip_enum() {
-    struct_roundtrip(Sch::Enum, 0);
 }
 
 #[kani::proof]
@@ -644,26 +611,8 @@ fn c26_struct_roundtrip_nested() {
     struct_roundtrip(Sch::Nested, 0);
 }
 
-#[kani::proof]
-#[kani::unwind(3)]
-fn c26_struct_roundtrip_id() {
-    struct_roundtrip(Sch::Id, 0);
-}
-
-#[kani::proof]
-#[kani::unwind(4)]
-fn c26_struct_roundtrip_bytes() {
-    struct_roundtrip(Sch::Bytes, 2);
-}
-
-#[kani::proof]
-#[kani::unwind(4)]
-fn c26_struct_roundtrip_str() {
-    struct_roundtrip(Sch::Str, 2);
-}
-
-/// Arbitrary input of 0..=3 bytes at the struct entry (two-field schema): never panics; an
-/// accepted input yields a conforming struct that round-trips, and none of its strict prefixes is
+/// Arbitrary input of 0..=3 bytes (symbolic length) at the struct entry, two-field schema: never
+/// panics; an accepted input yields a conforming struct and none of its strict prefixes is
 /// accepted (so neither truncated input nor trailing data gets through).
 #[kani::proof]
 #[kani::unwind(5)]
@@ -671,162 +620,34 @@ fn c26_struct_bytes_two_fields() {
     let s = Sch::IntBool;
     let (sd, ed) = defs(s);
     let b: [u8; 3] = kani::any();
-    macro_rules! at {
-        ($($n:expr),*) => {
-            $(
-                let r = de(&sd, &ed, &b[..$n]);
-                match &r {
-                    Ok(d) => {
-                        kani::cover!($n == 2, "2-byte input accepted");
-                        kani::cover!($n == 3, "3-byte input accepted");
-                        assert!(struct_conforms(s, d), "accepted struct violates the schema");
-                        let k: usize = kani::any();
-                        kani::assume(k < $n);
-                        let rp = de(&sd, &ed, &b[..k]);
-                        assert!(rp.is_err(), "a strict prefix of an accepted input is accepted");
-                        core::mem::forget(rp);
-                    }
-                    Err(e) => {
-                        kani::cover!(*e == DeserializeError::UnexpectedEnd, "rejected: UnexpectedEnd");
-                        kani::cover!(*e == DeserializeError::TrailingData, "rejected: TrailingData");
-                        kani::cover!(*e == DeserializeError::BadInput, "rejected: BadInput");
-                    }
-                }
-                core::mem::forget(r);
-            )*
-        };
-    }
-    at!(0, 1, 2, 3);
-    core::mem::forget((sd, ed));
-}
-
-// ---------------------------------------------------------------------------------------------
-// one harness per rejection class of the property text (struct entry point)
-// ---------------------------------------------------------------------------------------------
-
-/// invalid option / result tags: first byte not in {0,1}, anything after it.
-#[kani::proof]
-#[kani::unwind(5)]
-fn c26_reject_bad_tag() {
-    let b: [u8; 3] = kani::any();
-    kani::assume(b[0] > 1);
-    let (sd, ed) = defs(Sch::OptInt);
-    let (sd2, ed2) = defs(Sch::Res);
-    macro_rules! at {
-        ($($n:expr),*) => {
-            $(
-                let r = de(&sd, &ed, &b[..$n]);
-                kani::cover!(matches!(r, Err(DeserializeError::BadInput)), "option tag > 1: BadInput");
-                assert!(r.is_err(), "invalid option tag accepted");
-                core::mem::forget(r);
-                let r = de(&sd2, &ed2, &b[..$n]);
-                kani::cover!(matches!(r, Err(DeserializeError::BadInput)), "result tag > 1: BadInput");
-                assert!(r.is_err(), "invalid result tag accepted");
-                core::mem::forget(r);
-            )*
-        };
-    }
-    at!(1, 2, 3);
-    core::mem::forget((sd, ed, sd2, ed2));
-}
-
-/// enum values outside the definition: the (valid) int encoding of any x not in {0, 3}.
-#[kani::proof]
-#[kani::unwind(3)]
-fn c26_reject_enum_out_of_range() {
-    let x: i64 = kani::any();
-    kani::assume(x != E_X && x != E_Y);
-    let (sdi, edi) = defs(Sch::Int);
-    let bytes = match ser_value(&sdi, &Value::Int(x)) {
-        Ok(b) => b,
-        Err(_) => {
-            assert!(false);
-            return;
+    let n: usize = kani::any();
+    kani::assume(n <= 3);
+    let r = de(&sd, &ed, &b[..n]);
+    match &r {
+        Ok(d) => {
+            kani::cover!(n == 2, "2-byte input accepted");
+            kani::cover!(n == 3, "3-byte input accepted");
+            assert!(struct_conforms(s, d), "accepted struct violates the schema");
+            let k: usize = kani::any();
+            kani::assume(k < n);
+            let rp = de(&sd, &ed, &b[..k]);
+            assert!(rp.is_err(), "a strict prefix of an accepted input is accepted");
+            core::mem::forget(rp);
         }
-    };
-    let (sd, ed) = defs(Sch::Enum);
-    let r = de(&sd, &ed, &bytes);
-    kani::cover!(matches!(r, Err(DeserializeError::BadInput)), "undefined enum value: BadInput");
-    assert!(r.is_err(), "enum value outside the definition accepted");
-    // also: an enum type with no definition at all is an error, not a panic
-    let ed0: EnumDefs = AutoMap::new();
-    let r0 = de(&sd, &ed0, &bytes);
-    assert!(r0.is_err());
-    core::mem::forget((r, r0, bytes, sd, ed, sdi, edi, ed0));
-}
-
-/// text that is not valid UTF-8 or contains NUL: length prefix n (1..=3) + n payload bytes.
-#[kani::proof]
-#[kani::unwind(5)]
-fn c26_reject_bad_text() {
-    let (sd, ed) = defs(Sch::Str);
-    let p: [u8; 3] = kani::any();
-    macro_rules! at {
-        ($($n:expr),*) => {
-            $(
-                let n: usize = $n;
-                let mut b = [0u8; 4];
-                b[0] = n as u8;
-                b[1] = p[0];
-                b[2] = p[1];
-                b[3] = p[2];
-                let has_nul = (p[0] == 0) | ((n > 1) & (p[1] == 0)) | ((n > 2) & (p[2] == 0));
-                let invalid = core::str::from_utf8(&p[..n]).is_err();
-                let r = de(&sd, &ed, &b[..1 + n]);
-                kani::cover!(has_nul & !invalid & r.is_err(), "NUL in valid UTF-8 rejected");
-                kani::cover!(invalid & !has_nul & r.is_err(), "invalid UTF-8 rejected");
-                kani::cover!(r.is_ok(), "clean text accepted");
-                if has_nul || invalid {
-                    assert!(r.is_err(), "text with NUL / invalid UTF-8 accepted");
-                } else {
-                    assert!(r.is_ok(), "clean text rejected");
-                }
-                core::mem::forget(r);
-            )*
-        };
+        Err(e) => {
+            kani::cover!(*e == DeserializeError::UnexpectedEnd, "rejected: UnexpectedEnd");
+            kani::cover!(*e == DeserializeError::TrailingData, "rejected: TrailingData");
+            kani::cover!(*e == DeserializeError::BadInput, "rejected: BadInput");
+        }
     }
-    at!(1, 2, 3);
-    core::mem::forget((sd, ed));
-}
-
-/// ids of the wrong length: length byte != 32 (any following bytes), or length byte 32 with a
-/// payload that is not exactly 32 bytes.
-#[kani::proof]
-#[kani::unwind(3)]
-fn c26_reject_bad_id_len() {
-    let (sd, ed) = defs(Sch::Id);
-    let b: [u8; 35] = kani::any();
-    macro_rules! at {
-        ($($n:expr),*) => {
-            $(
-                let r = de(&sd, &ed, &b[..$n]);
-                if b[0] != 32 {
-                    // wrong length byte, whatever follows
-                    kani::cover!((b[0] == 31) & r.is_err(), "id length byte 31 rejected");
-                    kani::cover!((b[0] == 33) & r.is_err(), "id length byte 33 rejected");
-                    assert!(r.is_err(), "id with wrong length byte accepted");
-                } else if $n == 33 {
-                    kani::cover!(r.is_ok(), "33-byte id accepted");
-                    assert!(r.is_ok());
-                } else {
-                    // right length byte, wrong payload size
-                    kani::cover!(($n == 34) & r.is_err(), "34-byte id rejected");
-                    kani::cover!(($n == 32) & r.is_err(), "32-byte id rejected");
-                    assert!(r.is_err(), "id with wrong payload size accepted");
-                }
-                core::mem::forget(r);
-            )*
-        };
-    }
-    at!(1, 2, 32, 33, 34);
-    core::mem::forget((sd, ed));
+    core::mem::forget((r, sd, ed));
 }
 
 /// Schema lookups that fail are errors: unknown struct name; value that does not match its
 /// schema (field count) on the serialize side.
 #[kani::proof]
 #[kani::unwind(3)]
-fn c26_unknown_defs_are_errors() {
+fn c26_struct_unknown_defs_are_errors() {
     let sd0: StructDefs = AutoMap::new();
     let ed0: EnumDefs = AutoMap::new();
     let b: [u8; 2] = kani::any();
@@ -841,4 +662,102 @@ fn c26_unknown_defs_are_errors() {
     kani::cover!(matches!(rs2, Err(SerializeError::FieldLengthMismatch)), "field count mismatch");
     assert!(rs2.is_err());
     core::mem::forget((r, rs, rs2, st, sd, ed, sd0, ed0));
+}
+
+// ---------------------------------------------------------------------------------------------
+// one harness per rejection class of the property text (value layer: that is where the checks
+// live; the trailing-data / truncation classes are in the roundtrip and struct harnesses above)
+// ---------------------------------------------------------------------------------------------
+
+/// invalid option / result tags: first byte not in {0,1}, anything (0..=2 bytes) after it.
+#[kani::proof]
+#[kani::unwind(3)]
+fn c26_reject_bad_tag() {
+    let b: [u8; 3] = kani::any();
+    kani::assume(b[0] > 1);
+    let n: usize = kani::any();
+    kani::assume(n >= 1 && n <= 3);
+    let (sd, ed) = defs(Sch::OptInt);
+    let (r, _) = de_value(&sd, &ed, &field_ty(Sch::OptInt), &b[..n]);
+    kani::cover!(matches!(r, Err(DeserializeError::BadInput)), "option tag > 1: BadInput");
+    assert!(r.is_err(), "invalid option tag accepted");
+    let (r2, _) = de_value(&sd, &ed, &field_ty(Sch::Res), &b[..n]);
+    kani::cover!(matches!(r2, Err(DeserializeError::BadInput)), "result tag > 1: BadInput");
+    assert!(r2.is_err(), "invalid result tag accepted");
+    core::mem::forget((r, r2, sd, ed));
+}
+
+/// enum values outside the definition: the (valid) int encoding of any x not in {0, 3}.
+#[kani::proof]
+#[kani::unwind(3)]
+fn c26_reject_enum_out_of_range() {
+    let x: i64 = kani::any();
+    kani::assume(x != E_X && x != E_Y);
+    let (sd, ed) = defs(Sch::Enum);
+    let bytes = match ser_value(&sd, &Value::Int(x)) {
+        Ok(b) => b,
+        Err(_) => {
+            assert!(false);
+            return;
+        }
+    };
+    let ty = field_ty(Sch::Enum);
+    let (r, _) = de_value(&sd, &ed, &ty, &bytes);
+    kani::cover!(matches!(r, Err(DeserializeError::BadInput)), "undefined enum value: BadInput");
+    assert!(r.is_err(), "enum value outside the definition accepted");
+    // an enum type with no definition at all is an error, not a panic
+    let ed0: EnumDefs = AutoMap::new();
+    let (r0, _) = de_value(&sd, &ed0, &ty, &bytes);
+    kani::cover!(matches!(r0, Err(DeserializeError::UnknownEnum(_))), "unknown enum");
+    assert!(r0.is_err());
+    core::mem::forget((r, r0, bytes, ty, sd, ed, ed0));
+}
+
+/// text that is not valid UTF-8 or contains NUL: length prefix n (1..=3) + n payload bytes.
+#[kani::proof]
+#[kani::unwind(5)]
+fn c26_reject_bad_text() {
+    let (sd, ed) = defs(Sch::Str);
+    let ty = field_ty(Sch::Str);
+    let p: [u8; 3] = kani::any();
+    let n: usize = kani::any();
+    kani::assume(n >= 1 && n <= 3);
+    let b = [n as u8, p[0], p[1], p[2]];
+    let has_nul = (p[0] == 0) | ((n > 1) & (p[1] == 0)) | ((n > 2) & (p[2] == 0));
+    let invalid = core::str::from_utf8(&p[..n]).is_err();
+    let (r, rest) = de_value(&sd, &ed, &ty, &b[..1 + n]);
+    kani::cover!(has_nul & !invalid & r.is_err(), "NUL in valid UTF-8 rejected");
+    kani::cover!(invalid & !has_nul & r.is_err(), "invalid UTF-8 rejected");
+    kani::cover!(r.is_ok() & (n == 3), "clean 3-byte text accepted");
+    if has_nul || invalid {
+        assert!(r.is_err(), "text with NUL / invalid UTF-8 accepted");
+    } else {
+        assert!(r.is_ok() && rest == 0, "clean text rejected");
+    }
+    core::mem::forget((r, ty, sd, ed));
+}
+
+/// ids of the wrong length: length byte != 32 (any following bytes), or length byte 32 with
+/// fewer than 32 payload bytes.  (More than 32 payload bytes = trailing data, struct layer.)
+#[kani::proof]
+#[kani::unwind(3)]
+fn c26_reject_bad_id_len() {
+    let (sd, ed) = defs(Sch::Id);
+    let ty = field_ty(Sch::Id);
+    let b: [u8; 35] = kani::any();
+    let n: usize = kani::any();
+    kani::assume(n >= 1 && n <= 35);
+    let (r, rest) = de_value(&sd, &ed, &ty, &b[..n]);
+    if b[0] != 32 {
+        kani::cover!((b[0] == 31) & r.is_err(), "id length byte 31 rejected");
+        kani::cover!((b[0] == 33) & (n == 34) & r.is_err(), "id length byte 33 rejected");
+        assert!(r.is_err(), "id with wrong length byte accepted");
+    } else if n < 33 {
+        kani::cover!((n == 32) & r.is_err(), "31-byte id payload rejected");
+        assert!(r.is_err(), "id with short payload accepted");
+    } else {
+        kani::cover!(r.is_ok() & (rest == 2), "id accepted, 2 bytes left for the caller");
+        assert!(r.is_ok() && rest == n - 33);
+    }
+    core::mem::forget((r, ty, sd, ed));
 }
